@@ -182,8 +182,13 @@ UnusedMiscCase(j) ==
                       ExitI >>)]
 UnusedMiscCases == { UnusedMiscCase(j) : j \in 1..15 }
 
+\* R: destination and source are the SAME register (mov32 r, r truncates; sub r, r and xor r, r clear;
+\* div r, r gives 1 or 0): every register form, four registers, two values - never sampled away
+AluSameRegCases ==
+  { AluCase("R", o, r, r, v, v, 0, "nodata") : o \in RegForms, r \in {0, 3, 6, 9}, v \in {16, 17} }
+
 AluCases(u) ==
-  AluOffCases(u) \cup UnusedMiscCases \cup
+  AluOffCases(u) \cup UnusedMiscCases \cup AluSameRegCases \cup
   { AluCase(t[1], t[2], t[3], t[4], t[5], t[6], t[7], "nodata") :
       t \in Sample(AluIdxA(u) \cup AluIdxB(u) \cup AluIdxC(u) \cup AluIdxD(u) \cup AluIdxP(u)) \cup AluIdxZ(u)
             \cup {x \in AluIdxS(u) : Keep(HashId(x) \div 3)} }
